@@ -299,20 +299,21 @@ func specCtx(c JsonNode, l []JsonNode, k int) bool {
 
 // specListLeafOK: the hunk (before, remove, add, after) applies at index i of l.
 func specListLeafOK(l []JsonNode, i int, before, remove, after []JsonNode) bool {
+	// -1 appends: it stands for the index after the last element, and the context lines are checked
+	// there like anywhere else (C03: every context line equals the adjacent element or the boundary)
+	j := i
 	if i == -1 {
-		// -1 appends: it stands for the index after the last element, and the context lines are
-		// checked there like anywhere else (C03: every context line equals the adjacent element or
-		// the array boundary)
-		return len(remove) == 0 &&
-			forallInt(0, len(before), func(j int) bool { return specCtx(before[j], l, len(l)-(len(before)-j)) }) &&
-			forallInt(0, len(after), func(j int) bool { return specCtx(after[j], l, len(l)+j) })
+		if len(remove) != 0 {
+			return false
+		}
+		j = len(l)
 	}
-	if i < 0 || i+len(remove) > len(l) {
+	if j < 0 || j+len(remove) > len(l) {
 		return false
 	}
-	return forallInt(0, len(remove), func(k int) bool { return specEq(l[i+k], remove[k], nil) }) &&
-		forallInt(0, len(before), func(j int) bool { return specCtx(before[j], l, i-(len(before)-j)) }) &&
-		forallInt(0, len(after), func(j int) bool { return specCtx(after[j], l, i+len(remove)+j) })
+	return forallInt(0, len(remove), func(k int) bool { return specEq(l[j+k], remove[k], nil) }) &&
+		forallInt(0, len(before), func(q int) bool { return specCtx(before[q], l, j-(len(before)-q)) }) &&
+		forallInt(0, len(after), func(q int) bool { return specCtx(after[q], l, j+len(remove)+q) })
 }
 
 // specSplice: ret is l with nr elements at i replaced by add.
@@ -336,13 +337,18 @@ func specStrictOK(n JsonNode, path Path, before, remove, add, after []JsonNode) 
 		if !specIsListy(n) {
 			return false
 		}
-		l := specElems(n)
-		if len(path) == 1 {
-			return specListLeafOK(l, int(pe), before, remove, after)
-		}
-		return 0 <= int(pe) && int(pe) < len(l) && specStrictOK(l[int(pe)], path[1:], before, remove, add, after)
+		return specIndexOK(specElems(n), int(pe), path, before, remove, add, after)
 	}
 	return false
+}
+
+// specIndexOK: the hunk applies at index i of the elements l (path[0] is that index). It speaks
+// about the elements only, so it is the same for an array however it is read (list, plain array).
+func specIndexOK(l []JsonNode, i int, path Path, before, remove, add, after []JsonNode) bool {
+	if len(path) == 1 {
+		return specListLeafOK(l, i, before, remove, after)
+	}
+	return 0 <= i && i < len(l) && specStrictOK(l[i], path[1:], before, remove, add, after)
 }
 
 // specStrictRes: ret is the result of applying an applicable strict hunk to n:
